@@ -464,18 +464,59 @@ wait
     return {"n": n, "n_mismatch": n_mis, "mismatches": mism, "kinds": kinds, "samples": samples}
 
 
+RLD_STATE = {"path": None, "error": None, "done": False}
+
+
+def real_list_manager():
+    """translates /repo's glass-easel/src/tmpl/range_list_diff.ts to JavaScript (lib/tsstrip.py, type erasure), checks the
+    syntax with node and returns the path of the generated module, or None with RLD_STATE['error'] set.  Regenerated whenever
+    the source or the translator changes (content hash in the file name); never stored under /verif outside .cache."""
+    if RLD_STATE["done"]:
+        return RLD_STATE["path"]
+    RLD_STATE["done"] = True
+    import hashlib
+    sys.path.insert(0, os.path.join(VERIF, "lib"))
+    import tsstrip
+    srcp = os.path.join(REPO, "glass-easel", "src", "tmpl", "range_list_diff.ts")
+    try:
+        src = open(srcp, encoding="utf8").read()
+        h = hashlib.sha256((src + open(os.path.join(VERIF, "lib", "tsstrip.py")).read()).encode("utf8")).hexdigest()[:16]
+        outp = os.path.join(CACHE, "rld_%s.js" % h)
+        if not os.path.exists(outp):
+            js = tsstrip.strip(src)
+            tmp = outp[:-3] + ".tmp.js"
+            open(tmp, "w", encoding="utf8").write(js)
+            pr = subprocess.run(["node", "--check", tmp], capture_output=True)
+            if pr.returncode != 0:
+                raise tsstrip.StripError("generated JavaScript does not parse: " + pr.stderr.decode("utf8", "replace")[:400])
+            for f in os.listdir(CACHE):
+                if f.startswith("rld_") and f.endswith(".js") and not f.endswith(".tmp.js"):
+                    os.remove(os.path.join(CACHE, f))
+            os.rename(tmp, outp)
+        RLD_STATE["path"] = outp
+    except Exception as e:  # the translator could not erase the types: callers report it (C06)
+        RLD_STATE["error"] = "%s: %s" % (type(e).__name__, e)
+        RLD_STATE["path"] = None
+    return RLD_STATE["path"]
+
+
 def node_jobs(jobs, timeout=3000, shards=8):
-    """Runs jsrt/run.js on a list of JSON-serialisable jobs (in parallel shards); returns results in order."""
+    """Runs jsrt/run.js on a list of JSON-serialisable jobs (in parallel shards); returns results in order.
+    wx:for lists are managed by the real runtime's RangeListManager (translated from /repo on every run)."""
     import json as _json
     if not jobs:
         return []
+    env = dict(os.environ)
+    rld = real_list_manager()
+    if rld:
+        env["GE_RLD_JS"] = rld
     shards = max(1, min(shards, len(jobs)))
     chunks = [jobs[i::shards] for i in range(shards)]
     procs = []
     for ch in chunks:
         data = ("\n".join(_json.dumps(j) for j in ch) + "\n").encode("utf8")
         pr = subprocess.Popen(["node", "--stack-size=4000", os.path.join(VERIF, "jsrt", "run.js")],
-                              stdin=subprocess.PIPE, stdout=subprocess.PIPE, stderr=subprocess.PIPE)
+                              stdin=subprocess.PIPE, stdout=subprocess.PIPE, stderr=subprocess.PIPE, env=env)
         procs.append((pr, data))
     outs = []
     import threading
